@@ -44,6 +44,11 @@ type pfProg struct {
 	Shape   []pfShape `json:"shape"`
 	Suspend int       `json:"suspend"` // user suspended by root before the act phases (-1 none)
 	Phases  [][]pfAct `json:"phases"`
+	// Pattern 1: every full subscriber of group PatTopic mutes it (no P), the topic idles out and is loaded
+	// again, one of them un-mutes, the owner publishes: push addressing must follow the change.
+	Pattern  int `json:"pattern,omitempty"`
+	PatTopic int `json:"pat_topic,omitempty"`
+	PatUser  int `json:"pat_user,omitempty"`
 }
 
 var pfModes = []string{"JRWPS", "JR", "JW", "JRP", "JWP", "RWP", "N", "JRWP", "JP", "J"}
@@ -90,6 +95,11 @@ func genPubfan(rt *rapid.T) pfProg {
 			ph = append(ph, a)
 		}
 		p.Phases = append(p.Phases, ph)
+	}
+	if rapid.IntRange(0, 3).Draw(rt, "pattern") == 0 {
+		p.Pattern = 1
+		p.PatTopic = rapid.IntRange(0, 1).Draw(rt, "pat_topic")
+		p.PatUser = rapid.IntRange(0, 3).Draw(rt, "pat_user")
 	}
 	return p
 }
@@ -502,6 +512,40 @@ func runPubfan(t *testing.T, sched simrt.Schedule, prog pfProg) ([]Violation, Ru
 			w.setOps(ops)
 			w.rt.Run(2*time.Second, nil)
 		}
+		if prog.Pattern == 1 && len(sc.Groups) > 0 {
+			g := prog.PatTopic % len(sc.Groups)
+			gs := sc.Groups[g]
+			full := []int{gs.Owner}
+			for _, m := range gs.Members {
+				if !m.AsChan && m.User != sc.Root {
+					full = append(full, m.User)
+				}
+			}
+			mute := map[int][]*Op{}
+			for _, u := range full {
+				mode := "JRW"
+				if u == gs.Owner {
+					mode = "JRWASDO"
+				}
+				c := w.clientsOf(u)[0]
+				mute[c.Idx] = append(mute[c.Idx], opSetSub(c01TopicName(sc, c, g), "", mode))
+			}
+			w.runPhase(mute)
+			lv, back := map[int][]*Op{}, map[int][]*Op{}
+			for _, c := range w.Clients {
+				lv[c.Idx] = []*Op{opLeave(c01TopicName(sc, c, g), false)}
+				back[c.Idx] = []*Op{opSub(c01TopicName(sc, c, g), "", "")}
+			}
+			w.runPhase(lv) // settles for longer than the idle timeout: the topic is unloaded
+			w.runPhase(back)
+			uc := w.clientsOf(full[prog.PatUser%len(full)])[0]
+			um := "JRWPS"
+			if uc.User.Idx == gs.Owner {
+				um = "JRWPASDO"
+			}
+			w.runPhase(map[int][]*Op{uc.Idx: {opSetSub(c01TopicName(sc, uc, g), "", um)}})
+			simrt.Probe("c02.mute_reload_unmute")
+		}
 		if prog.Suspend >= 0 && sc.Root >= 0 {
 			rc := w.clientsOf(sc.Root)[0]
 			w.runPhase(map[int][]*Op{rc.Idx: {opMsg(&ClientComMessage{Acc: &MsgClientAcc{User: fmt.Sprintf("@usr%d", prog.Suspend), State: "susp"}})}})
@@ -535,6 +579,11 @@ func runPubfan(t *testing.T, sched simrt.Schedule, prog pfProg) ([]Violation, Ru
 		tagN := 0
 		for pi, ph := range prog.Phases {
 			ops := map[int][]*Op{}
+			if pi == 0 && prog.Pattern == 1 && len(sc.Groups) > 0 {
+				g := prog.PatTopic % len(sc.Groups)
+				oc := w.clientsOf(sc.Groups[g].Owner)[0]
+				ops[oc.Idx] = append(ops[oc.Idx], opPub(c01TopicName(sc, oc, g), "pat.1", false).iso())
+			}
 			for _, a := range ph {
 				c := w.Clients[a.Client%len(w.Clients)]
 				name := "me"
